@@ -74,7 +74,7 @@ func newAssumptions() *Assumptions {
 	add("sowing-window>0", "valid input: the sliding temperature window for automatic sowing has at least one day", sP, iv(1, 366), g("TSLWINDOW")...)
 	add("active-N-fraction", "valid input: the mineralisable share of soil organic N lies strictly between 0 and 1", sP, iv(0.001, 0.999), g("NAKT")...)
 	add("days-of-year>0", "the yearly averages divide by the number of the day on which the year-end block runs, which the day loop makes at least 1", sP, iv(1, 366), g("JTAG")...)
-	add("soil:C/N>0", "valid input: the C/N ratio of a horizon is positive", sP, iv(1, 100), "SoilFileData.CNRATIO", "soildata.CNRATIO")
+	add("soil:C/N>=0", "valid input: the C/N ratio of a horizon is not negative (0 stands for \"not given\" and must be replaced by the default before it divides)", sZ|sP, iv(0, 100), "SoilFileData.CNRATIO", "soildata.CNRATIO")
 	// ---- valid inputs: crop parameters
 	add("crop:root-velocity", "valid input: root depth increase per degree day is positive (crop file; the calibration overwrite checks 0 < VELOC <= 1)", sP, iv(1e-6, 1), g("VELOC")...)
 	add("crop:stage-temperature-sum>0", "valid input: every development stage of a crop file has a positive temperature sum", sP, iv(1, 5000), g("TSUM")...)
